@@ -140,7 +140,7 @@ for _n, _shape in [("c08_conv_2nodes_default_min", "[0,1] default 0"), ("c08_con
                    ("c08_conv_4nodes_default_inner", "[-0.5,0,12.25,100] default 2"), ("c08_conv_1node", "[5] default 0"),
                    ("c08_conv_3nodes_listed_default_first", "[100,400,900] default 400, listed 400,100,900"),
                    ("c08_conv_3nodes_listed_descending", "[-0.5,12.25,100] default -0.5, listed 100,12.25,-0.5")]:
-    H(_n, "C08", "fontdrasil", "coords", tier=("quick" if _n in ("c08_conv_2nodes_default_min", "c08_conv_3nodes_listed_default_first") else "thorough"), funcs=[C + "::CoordConverter::new", C + "::ConvertSpace impls (user/design/normalized)", P + "::PiecewiseLinearMap::{new,reverse,map}"],
+    H(_n, "C08", "fontdrasil", "coords", tier=("quick" if _n in ("c08_conv_2nodes_default_min", "c08_conv_2nodes_default_max", "c08_conv_3nodes_listed_default_first") else "thorough"), funcs=[C + "::CoordConverter::new", C + "::ConvertSpace impls (user/design/normalized)", P + "::PiecewiseLinearMap::{new,reverse,map}"],
       bound="design shape " + _shape + " concrete; user values strictly increasing + probe symbolic on the k/4 grid in [-2,2]",
       oracle="user node -> its design value; node normalization == reference design normalization (default 0, design min -1, design max +1); in-range probe normalizes within the node hull; 0 denormalizes to the default")
 H("c08_conv_user_design_roundtrip_nodes", "C08", "fontdrasil", "coords", tier="thorough", funcs=[C + "::CoordConverter::new", C + "::ConvertSpace impls"],
@@ -219,10 +219,10 @@ L = "fea-rs/src/parse/lexer.rs"
 _lexfuncs = [L + "::Lexer::next_token", L + "::Lexer::{whitespace,comment,string,hyphen_or_minus,number,cid,glyph_class_name,eat_ident,ident,path}",
              L + "::ExpectingPath::transition", "fea-rs/src/parse/lexer/lexeme.rs::Kind::from_keyword"]
 _lexoracle = "every token consumes input; token lengths track the cursor and sum to the window; Eof (empty) only at the end; terminates within N+1 tokens; no panic"
-H("c13_lexer_lossless_ascii_n3", "C13", "fea-rs", "parse::lexer", funcs=_lexfuncs, bound="every window of 3 ASCII bytes (0x00..0x7F), every lexer state (2 flags x 3 path states); unwind 7", oracle=_lexoracle)
-H("c13_lexer_lossless_ascii_n4", "C13", "fea-rs", "parse::lexer", funcs=_lexfuncs, bound="every window of 4 ASCII bytes, every lexer state; unwind 7", oracle=_lexoracle)
-H("c13_lexer_lossless_ascii_n5", "C13", "fea-rs", "parse::lexer", tier="thorough", funcs=_lexfuncs, bound="every window of 5 ASCII bytes, every lexer state; unwind 8", oracle=_lexoracle)
-H("c13_lexer_char_boundaries_2byte", "C13", "fea-rs", "parse::lexer", funcs=_lexfuncs, bound="ASCII byte, one 2-byte char (C2..DF 80..BF), ASCII byte; every lexer state",
+H("c13_lexer_lossless_ascii_n3", "C13", "fea-rs", "parse::lexer", termination_claim=True, funcs=_lexfuncs, bound="every window of 3 ASCII bytes (0x00..0x7F), every lexer state (2 flags x 3 path states); unwind 7", oracle=_lexoracle)
+H("c13_lexer_lossless_ascii_n4", "C13", "fea-rs", "parse::lexer", termination_claim=True, funcs=_lexfuncs, bound="every window of 4 ASCII bytes, every lexer state; unwind 7", oracle=_lexoracle)
+H("c13_lexer_lossless_ascii_n5", "C13", "fea-rs", "parse::lexer", tier="thorough", termination_claim=True, funcs=_lexfuncs, bound="every window of 5 ASCII bytes, every lexer state; unwind 8", oracle=_lexoracle)
+H("c13_lexer_char_boundaries_2byte", "C13", "fea-rs", "parse::lexer", termination_claim=True, funcs=_lexfuncs, bound="ASCII byte, one 2-byte char (C2..DF 80..BF), ASCII byte; every lexer state",
   oracle="as above, and no token boundary falls inside the 2-byte char")
 H("c13_expecting_path_transitions", "C13", "fea-rs", "parse::lexer", funcs=[L + "::ExpectingPath::transition"], bound="3 states x 5 token kinds",
   oracle="InPath is entered only by `(` directly after `include` (whitespace keeps the armed state)")
